@@ -15,7 +15,13 @@ const GiB = int64(1) << 30
 func (h *Hist) genConfigs() {
 	r := h.r
 	ng := r.pickI(1, 1, 1, 2, 2, 3)
+	if focus == "multi" {
+		ng = r.pickI(2, 2, 3)
+	}
 	h.globalDry = r.chance(4)
+	if focus == "dry" {
+		h.globalDry = r.chance(25)
+	}
 	useDefault := ng > 1 && r.chance(40)
 	for i := 0; i < ng; i++ {
 		name := fmt.Sprintf("g%d", i)
@@ -40,7 +46,7 @@ func (h *Hist) genConfigs() {
 		cool := r.pickI(60, 120, 300)
 		o := controller.NodeGroupOptions{
 			Name: name, LabelKey: "grp", LabelValue: fmt.Sprintf("v%d", i), CloudProviderGroupName: fmt.Sprintf("asg%d", i),
-			MinNodes: minN, MaxNodes: maxN, DryMode: r.chance(12), ScaleOnStarve: r.chance(30),
+			MinNodes: minN, MaxNodes: maxN, DryMode: r.chance(12) || (focus == "dry" && r.chance(60)), ScaleOnStarve: r.chance(30),
 			TaintLowerCapacityThresholdPercent: lower, TaintUpperCapacityThresholdPercent: upper, ScaleUpThresholdPercent: up,
 			SlowNodeRemovalRate: slow, FastNodeRemovalRate: fast,
 			SoftDeleteGracePeriod: fmt.Sprintf("%ds", soft), HardDeleteGracePeriod: fmt.Sprintf("%ds", hard),
@@ -76,9 +82,20 @@ func (h *Hist) genConfigs() {
 		}
 		g := &SimASG{Name: o.CloudProviderGroupName, Min: asgMin, Max: asgMax, VpcZones: "subnet-a,subnet-b", Tagged: r.chance(30)}
 		h.aws.asgs[g.Name] = g
-		nNodes := r.rng(0, int(asgMax)+1)
-		if r.chance(15) {
+		effMin, effMax := minN, maxN
+		if minN == 0 && maxN == 0 {
+			effMin, effMax = int(asgMin), int(asgMax)
+		}
+		nNodes := r.rng(effMin, effMax)
+		switch r.intn(12) {
+		case 0:
 			nNodes = 0
+		case 1:
+			nNodes = effMax + 1
+		case 2:
+			if effMin > 0 {
+				nNodes = effMin - 1
+			}
 		}
 		cpu := int64(r.pickI(1000, 2000, 4000, 8000, 3900))
 		mem := int64(r.pickI(4, 8, 16, 15)) * GiB
@@ -491,3 +508,4 @@ func (h *Hist) runHistory(scans int) (bool, string) {
 }
 
 var slowOK = false
+var focus = ""
